@@ -60,7 +60,7 @@ extern "C" void harness_binary_pairs()  /* vf: bounds=a_op1_b_op2_c_over_all_24x
 {
     Ctx cx;
     vf_assert(cx.declare(DECLS) == 0, "declarations-accepted");
-    int i1 = vf_pick("!op1", NBIN), i2 = vf_pick("!op2", NBIN);
+    int i1 = vf_pick("op1", NBIN), i2 = vf_pick("op2", NBIN);   // lazy symbolic picks: the engine forks on the operator-table look-ups, each fork is a solver-checked path condition
     const BinOp &o1 = BINOPS[i1], &o2 = BINOPS[i2];
     std::string s1 = std::string(" ") + o1.tok + " ", s2 = std::string(" ") + o2.tok + " ";
     expect(cx, "a" + s1 + "b" + s2 + "c", two(o1, o2, id("a"), id("b"), id("c")), "nesting-follows-operator-table");
@@ -74,7 +74,7 @@ extern "C" void harness_binary_triples()  /* vf: tier=thorough bounds=a_op1_b_op
     static const int REP[] = {0, 3, 5, 7, 9, 13, 15, 16, 17, 18, 19, 20, 21, 22, 23};
     Ctx cx;
     vf_assert(cx.declare(DECLS) == 0, "declarations-accepted");
-    const BinOp &o1 = BINOPS[REP[vf_pick("!op1", 15)]], &o2 = BINOPS[REP[vf_pick("!op2", 15)]], &o3 = BINOPS[REP[vf_pick("!op3", 15)]];
+    const BinOp &o1 = BINOPS[REP[vf_pick("op1", 15)]], &o2 = BINOPS[REP[vf_pick("op2", 15)]], &o3 = BINOPS[REP[vf_pick("op3", 15)]];
     // operator-precedence oracle for three operators: shunting with the table
     std::vector<T> vals{id("a")}; std::vector<const BinOp*> ops;
     const BinOp* seq[3] = {&o1, &o2, &o3}; const char* names[3] = {"b", "c", "d"};
@@ -91,7 +91,7 @@ extern "C" void harness_unary_postfix()  /* vf: bounds=unary(-,+,!,not)_and_pre/
 {
     Ctx cx;
     vf_assert(cx.declare(DECLS) == 0, "declarations-accepted");
-    int shape = vf_pick("!shape", 9), ib = vf_pick("!op", NBIN), iu = vf_pick("!unary", NUN);
+    int shape = vf_pick("shape", 9), ib = vf_pick("op", NBIN), iu = vf_pick("unary", NUN);
     const BinOp& o = BINOPS[ib]; const UnOp& u = UNOPS[iu];
     std::string s = std::string(" ") + o.tok + " ";
     switch (shape) {
@@ -112,7 +112,7 @@ extern "C" void harness_ternary_assignment_quantifier()  /* vf: bounds=inline-if
 {
     Ctx cx;
     vf_assert(cx.declare(DECLS) == 0, "declarations-accepted");
-    int shape = vf_pick("!shape", 10), i1 = vf_pick("!op1", NBIN), i2 = vf_pick("!asg", NASG);
+    int shape = vf_pick("shape", 10), i1 = vf_pick("op1", NBIN), i2 = vf_pick("asg", NASG);
     const BinOp& o = BINOPS[i1]; const AsgOp& g = ASGOPS[i2];
     std::string s = std::string(" ") + o.tok + " ", gs = std::string(" ") + g.tok + " ";
     switch (shape) {
@@ -136,7 +136,7 @@ extern "C" void harness_int_literals()  /* vf: bounds=decimal_literals_prefix+2_
     static const char* PREFIX[] = {"21474836", "0021474836", "42949672", "99999999", "214748364", "2147483", "000000000", "429496729", "1000000000", "21474836480"};
     Ctx cx;
     vf_assert(cx.declare(DECLS) == 0, "declarations-accepted");
-    int p = vf_pick("!prefix", 10), d1 = vf_pick("!d1", 10), d2 = vf_pick("!d2", 10), neg = vf_pick("!negated", 2);
+    int p = vf_pick("prefix", 10), d1 = vf_pick("!d1", 10), d2 = vf_pick("!d2", 10), neg = vf_pick("!negated", 2);   // digits become text: eager
     std::string lit = std::string(PREFIX[p]) + (char)('0' + d1) + (char)('0' + d2);
     // mathematical value, independently
     unsigned long long val = 0; for (char ch : lit) val = val * 10 + (unsigned)(ch - '0');
@@ -172,7 +172,7 @@ extern "C" void harness_float_literals()  /* vf: bounds=floating_constant_bits_p
     // (2) spellings
     static const char* LITS[] = {"0.1", "1e308", "1.7976931348623157e308", "4.9e-324", "2.2250738585072014e-308", "1e-7", "123456789.25", "2.5E+3", "2.5e-3", "0.0", "1.0", "3.141592653589793",
                                  "0.30000000000000004", "9007199254740993.0", "1e22", "1e23", "5e-324", "17.5e0"};
-    int k = vf_pick("!literal", 18);
+    int k = vf_pick("literal", 18);
     size_t n0 = cx.nerr();
     expression_t f = cx.expr(LITS[k]);
     vf_assert(cx.nerr() == n0 && !f.empty() && f.get_kind() == CONSTANT && f.get_type().is_double(), "floating-literal-accepted");
